@@ -24,7 +24,7 @@ QUICK_BITES = [0, 3, 5, 7, 8, 9]
 
 PAIR = ("smalla", "smallb")             # the design variants behind the abstract designs 1 and 2
 ABS2REAL = {"gen/a/f": "gen/calc/service.go", "gen/b/f": "gen/store/service.go", "gen/c/f": "gen/audit/service.go",
-            "x1": "calc.go", "cmd/x2": "store.go", "x3": "audit.go",
+            "x1": "cmd/small/http.go", "cmd/x2": "store.go", "x3": "audit.go",
             "gen/a/stray": "gen/calc/stray.txt", "gen/u/stray": "gen/userdir/stray.txt", "gen/stray": "gen/stray.txt",
             "stray": "stray.txt", "design/design.go": "designs/smalla/design.go"}
 ABS_STRAYS = ["gen/a/stray", "gen/u/stray", "gen/stray", "stray"]
